@@ -70,6 +70,9 @@ func list(m map[string]any, k string) []any {
 	return nil
 }
 
+// protocolOut is the original stdout (fd 1 itself is redirected to stderr because Zeno logs to it)
+var protocolOut *os.File
+
 func safely(h handler, in map[string]any) (out string) {
 	defer func() {
 		if r := recover(); r != nil {
@@ -101,6 +104,7 @@ func main() {
 	}
 	_ = syscall.Dup2(2, 1)
 	realOut := os.NewFile(uintptr(realFd), "protocol-out")
+	protocolOut = realOut
 	h := mk()
 	in := bufio.NewReaderSize(os.Stdin, 1<<20)
 	out := bufio.NewWriter(realOut)
